@@ -9,7 +9,8 @@ from common import CORPUS
 CONFIG = {
     "cone": ["Base/ListUtil.v", "Base/QUtil.v", "Base/FirstArgmax.v", "Model/Store.v", "Proofs/StoreProofs.v", "Model/Archive.v",
              "Proofs/ArchiveProofs.v", "Proofs/C01Proofs.v", "Proofs/C02Proofs.v", "Model/Proximity.v", "Proofs/KnnProofs.v", "Proofs/ProximityProofs.v",
-             "Proofs/C14Proofs.v", "Properties/C14.v"],
+             "Proofs/C14Proofs.v", "Properties/C14.v", "Proofs/C06Proofs.v", "Proofs/ProximityStats.v", "Properties/C06Proximity.v"],
+    "extra_property_files": ["Properties/C06Proximity.v"],
     "trusted": ["Model/Proximity.v models ProximityArchive over exact rationals on top of Model/Archive.v (ArchiveBase defaults) and "
                 "Model/Store.v (resize); the k-D tree is not modelled: each candidate carries its distances to the stored entries of the "
                 "pre-call archive (1-D: |x-y| computed exactly by the harness; 2-3-D integer/half-integer lattices: numpy's float64 "
@@ -25,7 +26,9 @@ CONFIG = {
                   "competition the entries are append-only at indices 0..n-1; growth doubles the capacity minimally and loses/reorders "
                   "nothing; with local competition entry i becomes the first arg-max of the non-novel candidates aimed at it iff strictly "
                   "better; bounds reads return the coordinate-wise min/max of the current measures and RuntimeError when empty, also after "
-                  "clear. The model is tied to ribs/archives/_proximity_archive.py by a differential run on every check.",
+                  "clear. coq/Properties/C06Proximity.v (statistics of C06 for this archive type): in every reachable state the running objective "
+                  "sum, num_elites, qd_score and obj_mean are functions of the stored entries (Proofs/ProximityStats.v). "
+                  "The model is tied to ribs/archives/_proximity_archive.py by a differential run on every check.",
     "level_note": "Trusted: Coq kernel; extraction + driver; hand-written model tied by sampling; distance oracle (numpy, re-checked with "
                   "Fractions); harness. No axioms.",
     "technique": "Rocq/Coq proof over an executable Gallina model (invariant over all histories, relational k-NN spec) + "
